@@ -4,7 +4,10 @@ import json
 RULE = ("TLC enumerates single-condition scenarios: kind (PINN / mean / periodic) x 8 residual families (differences, "
         "products with an inverse parameter, a derivative, prime-weighted echo of all arguments, vector residual, left/right) "
         "x sampler space order x model input order x residual signature order x static / non-static sampler x n in {1,2,4}; "
-        "each condition is evaluated twice; non-trivial = n >= 2")
+        "each condition is evaluated twice; plus (CondExt) PIDeepONet x 3 function sets x 2 point sets x 4 residual families x "
+        "static x signature order, DeepONet data conditions (norm inf/1/2, root 1/2, constrain function, full data set), integro "
+        "conditions (3 residual families x integral point sets x static x space order), Deep-Ritz and parameter conditions, each "
+        "evaluated at iterations 0, 0, 1; non-trivial = n >= 2")
 
 
 def run(ctx, mode="single"):
@@ -17,18 +20,32 @@ def run(ctx, mode="single"):
         scen = ctx.gen("Gen_Cond", "Gen_Cond_single")
     else:
         scen = ctx.gen("Gen_Cond", "Gen_Cond_hist", simulate="num=%d" % (400 if ctx.quick else 5000), depth=8)
-    traces = ctx.drive("cond", scen, timeout=3000)
-    ctx.validate("Trace_Cond", traces, timeout=3000)
+    ext = [x for x in scen if "fsets" in x]                  # replay of an extended-conditions scenario
+    scen = [x for x in scen if "fsets" not in x]
+    traces = ctx.drive("cond", scen, timeout=3000) if scen else []
+    if traces:
+        ctx.validate("Trace_Cond", traces, timeout=3000)
+    # extended conditions (CondExt.tla): PIDeepONet / DeepONet data / integro / Deep-Ritz / parameter conditions
+    if not ctx.replay:
+        if mode == "single":
+            ext = ctx.gen("Gen_CondX", "Gen_CondX_single")
+        else:
+            ext = ctx.gen("Gen_CondX", "Gen_CondX_hist", simulate="num=%d" % (250 if ctx.quick else 4000), depth=16)
+    xtraces = ctx.drive("condx", ext, timeout=3000) if ext else []
+    if xtraces:
+        ctx.validate("Trace_CondX", xtraces, timeout=3000)
+    ctx.extra["extended_condition_traces"] = len(xtraces)
+    traces = traces + xtraces
     ctx.rule = RULE
     ctx.exhaustive = mode == "single"
     ctx.extra["evaluations"] = sum(len(t.get("events", [])) for t in traces)
     ctx.events = ctx.extra["evaluations"]
-    ctx.extra["distinct_nontrivial"] = sum(1 for t in traces if any(len(o.get("rows", [])) >= 2 for o in t["scenario"]["ops"]))
+    ctx.extra["distinct_nontrivial"] = sum(1 for t in traces if any(len(o.get("rows", [])) >= 2 or len(o.get("pts", [])) >= 2 for o in t["scenario"]["ops"]))
     for t in traces:
         evs = [e for e in t.get("events", []) if e["a"] == "ev" and e.get("recv")]
-        if evs and len(t["scenario"]["ops"][0]["rows"]) >= 2:
+        if evs and "fsets" not in t["scenario"] and len(t["scenario"]["ops"][0]["rows"]) >= 2:
             ctx.sample({"ops": [{k: o[k] for k in ("a", "c", "kind", "res", "rows", "static", "order", "morder", "dict")} for o in t["scenario"]["ops"]],
                         "received": evs[0]["recv"], "loss": evs[0]["loss"]})
             break
     ctx.assumptions += ["affine integer models in float64, integer sample points from data samplers, affine integer data functions: every argument and loss is an exact small rational",
-                        "Integro / HPM / DeepONet conditions are not driven"]
+                        "DeepONet conditions run on integer DeepONets (weights -1..1, identity activations) whose output table is observed by a direct call; HPM and variational conditions are not driven"]
